@@ -28,10 +28,17 @@
 (* show that the checks can fail.                                          *)
 (*                                                                         *)
 (* One definition of the mechanism (the step function Steps) is explored   *)
-(* at two granularities: Grain = "small" takes one program step at a time  *)
-(* so that Kill is enabled at every program counter; Grain = "big" takes   *)
-(* a whole call (or a whole call killed at some program counter) as one    *)
-(* step -- the same reachable idle states, far fewer intermediate ones.    *)
+(* at three granularities: Grain = "small" takes one program step at a     *)
+(* time so that Kill is enabled at every program counter; Grain = "big"    *)
+(* takes a whole call (or a whole call killed at one representative of     *)
+(* each class of program counters that leave the same directory behind)    *)
+(* as one step -- the same reachable idle states, far fewer intermediate   *)
+(* ones; Grain = "sim" takes one randomly chosen big step (TLC -simulate,  *)
+(* long histories).                                                        *)
+(*                                                                         *)
+(* Bounded searches (MaxSteps) must be run with ONE TLC worker: the bound  *)
+(* is on the length of the first history found for a state, which is the   *)
+(* shortest one only in a strictly level-by-level search.                  *)
 (***************************************************************************)
 EXTENDS Naturals, Sequences, FiniteSets, FiniteSetsExt, TLC, Json, IOUtils
 
